@@ -26,6 +26,16 @@ PROPS = {
                      "effectiveness theorems (token_shared/node_shared) are stated for an immediately repeated request; stability of node entries under *other* requests is tied by correspondence (ghost ids vs addresses), not yet proved"],
         not_yet_proved=["node_entry_stable: a node-cache entry keeps answering its query after arbitrary other insertions (needs symmetry/transitivity of structural equality)"],
     ),
+    "C09": dict(
+        runs=runs([("checkpoints", "release")],
+                  [("checkpoints", "release"), ("checkpoints", "debug"), ("checkpoints", "lasso")]),
+        rule="cases = corpus of documented usage patterns + every sequence of length <= 5 (thorough 6) over {start, token, finish_node, checkpoint (<=2), "
+             "start_node_at k_i, revert_to k_i} inside one root node + random parser-like walks (<= 65, thorough <= 205 ops) that mostly use "
+             "checkpoints validly; each use is classified valid / wrap-while-open / invalid by the harness' identity-tracking reference; "
+             "non-trivial = at least one *valid* wrap or revert happened; distinct = distinct op text",
+        assumptions=["validity of a checkpoint is stated as: the stacks at checkpoint time are prefixes of the current stacks (implied by the ghost-identity definition the harness' reference uses)"],
+        not_yet_proved=[],
+    ),
     "C10": dict(
         runs=runs([("intern", "release"), ("intern", "lasso")],
                   [("intern", "release"), ("intern", "lasso"), ("intern", "debug"), ("intern", "lasso-debug")]),
